@@ -1133,6 +1133,56 @@ def C15(ctx):
         one(rand_number(rng), rng.randrange(10))
 
 
+def GENOP(ctx):
+    """validation of the translator: the definitions GENERATED from dsw/operation.py (DswModel.Gen.Operation,
+    executed by the driver operation `gen`) against the real functions, on the contract of each function and
+    on a malformed stream (wrong characters, empty strings, multi-digit operands, unexpected types)."""
+    rng = ctx.rng
+
+    def num(p_bad=0.12):
+        r = rng.random()
+        if r < p_bad:
+            return rng.choice(["", "0", "00", "0009", "a", "-", "+5", "-5", "5-", "1a2", "12.", "999999999999999999999"])
+        n = rng.choice([1, 1, 2, 3, 5, 9, 20, 60, 300 if ctx.thorough else 40])
+        if r < 0.45:
+            return "".join(rng.choice("09") for _ in range(n))
+        return "".join(rng.choice("0123456789") for _ in range(n))
+
+    def base():
+        return str(rng.randrange(10)) if rng.random() < 0.85 else rng.choice(["", "10", "12", "a", "007", "99", "-1", "+3"])
+
+    for it in range(ctx.n(1500, 40000)):
+        f = rng.choice(["calculus_addition", "calculus_subtraction", "calculus_multiplication", "calculus_division",
+                        "bit_to_number", "number_to_bit", "dna_to_number", "number_to_dna"])
+        if f.startswith("calculus"):
+            args = [num(), base()]
+        elif f == "bit_to_number":
+            L = rng.choice([0, 1, 2, 3, 8, 33, 64, 70])
+            bits = [rng.randrange(2) for _ in range(L)]
+            if rng.random() < 0.08:
+                bits = [rng.choice([0, 1, 2, 7, 10, -1]) for _ in range(rng.choice([1, 3]))]
+            args = [bits if rng.random() < 0.8 else tuple(bits), rng.random() < 0.5, rng.random() < 0.3]
+        elif f == "number_to_bit":
+            n = rng.choice([0, 1, 2, 5, 999, 2 ** 63, 2 ** 64 - 1, 2 ** 70 + 3, rng.randrange(10 ** 30)])
+            L = rng.choice([0, 1, 3, 10, 64, 80, 120])
+            args = [rng.choice([n, str(n), str(n), None, [1], "", "00", "0012", True, -n, "x"]), L]
+        elif f == "dna_to_number":
+            L = rng.choice([0, 1, 2, 4, 16, 33, 40])
+            args = ["".join(rng.choice("ACGT" if rng.random() < 0.93 else "ACGTNacgt-") for _ in range(L)), rng.random() < 0.5]
+        else:
+            n = rng.choice([0, 1, 3, 5, 6939, 4 ** 32, 4 ** 40 + 7, rng.randrange(10 ** 30)])
+            L = rng.choice([0, 1, 3, 8, 32, 50, 70])
+            args = [rng.choice([n, str(n), str(n), None, -5, "", "007", False, (1,)]), L]
+        try:
+            line = "gen %s %s" % (f, " ".join(proto.pv_enc(a) for a in args))
+        except TypeError:
+            continue
+        if " " in "".join(a for a in args if isinstance(a, str)):
+            continue
+        ctx.corr(line)
+        ctx.case(line, True, "gen:" + f)
+
+
 def C16(ctx):
     rng = ctx.rng
 
